@@ -248,7 +248,7 @@ def classify_kl(case, o):
 def classify(case, out):
     o = out.get("obs")
     if o is None:
-        return ["panic"]
+        return ["panic", "vc-case" if case.get("mode") == "vc" else "keyless-case" if case.get("mode") == "keyless" else "txn-case"]
     if case.get("mode") == "vc":
         return classify_vc(case, o)
     if case.get("mode") == "keyless":
@@ -266,6 +266,34 @@ def classify(case, out):
 
 def nontrivial(case, out):
     return "nontrivial" in classify(case, out)
+
+
+def run_impl(ctx, binary, cases):
+    """Run the harness; if the process dies (a panic in a goroutine of the engine cannot be recovered by the
+    harness kernel), isolate the crashing case(s) and report them as observations {"panic": ...}."""
+    from lib import vlib
+
+    def run(cs):
+        return vlib.run_harness(binary, HARNESS_RUNNER, cs, timeout=1800)
+
+    try:
+        return run(cases)
+    except vlib.HarnessError:
+        pass
+    outs = []
+    for s0 in range(0, len(cases), 20):
+        chunk = cases[s0:s0 + 20]
+        try:
+            outs.extend(run(chunk))
+            continue
+        except vlib.HarnessError:
+            pass
+        for c in chunk:
+            try:
+                outs.extend(run([c]))
+            except vlib.HarnessError as ex:
+                outs.append({"i": len(outs), "panic": "harness process died: " + str(ex)[:1500]})
+    return outs
 
 
 _SHRINK_BUDGET = [30]   # each candidate costs a harness run and a coqc start
